@@ -174,6 +174,73 @@ func c05ReuseExec(c *core.Ctx, in c05Reuse) {
 	}
 }
 
+// c05Preset: the message value handed to the decoder is not fresh — its security-header view already holds values
+// (what a receiver records after taking an outer security header off a protected payload, or left-overs of earlier
+// use). Routing and result must be those of a fresh message: they are a function of the input octets only.
+type c05Preset struct {
+	Entry  string  `json:"entry"`
+	Hex    string  `json:"hex"`
+	Header []uint8 `json:"security_header_field_values"` // one value per scalar field of Message.SecurityHeader, in declaration order
+}
+
+func c05PresetExec(c *core.Ctx, in c05Preset) {
+	data := unhex(in.Hex)
+	dec := func(m *nas.Message) error {
+		d := append([]byte{}, data...)
+		switch in.Entry {
+		case "plain":
+			return m.PlainNasDecode(&d)
+		case "gmm":
+			return m.GmmMessageDecode(&d)
+		}
+		return m.GsmMessageDecode(&d)
+	}
+	var pre, fresh *nas.Message
+	var e1, e2 error
+	pi := core.Try(func() {
+		pre = nas.NewMessage()
+		h := reflect.ValueOf(&pre.SecurityHeader).Elem()
+		k := 0
+		for i := 0; i < h.NumField(); i++ {
+			f := h.Field(i)
+			switch f.Kind() {
+			case reflect.Uint8, reflect.Uint16, reflect.Uint32, reflect.Uint64:
+				if k < len(in.Header) {
+					f.SetUint(uint64(in.Header[k]) * 0x01010101 & (1<<uint(f.Type().Bits()) - 1))
+				}
+				k++
+			}
+		}
+		e1 = dec(pre)
+		fresh = nas.NewMessage()
+		e2 = dec(fresh)
+	})
+	fail := func(k, w string) {
+		c.FailCase("preset|"+in.Entry+"|"+k, fmt.Sprintf("input %x decoded into a message whose security-header fields were set to %x beforehand: %s", clip(data), in.Header, w), "preset", in)
+	}
+	if pi != nil {
+		fail(pi.Key(), "panics: "+pi.Msg)
+		return
+	}
+	if (e1 == nil) != (e2 == nil) {
+		fail("verdict-depends-on-message-state", fmt.Sprintf("error %v, with a fresh message %v", e1, e2))
+		return
+	}
+	if e1 != nil {
+		return
+	}
+	if !reflect.DeepEqual(pre.GmmMessage, fresh.GmmMessage) || !reflect.DeepEqual(pre.GsmMessage, fresh.GsmMessage) {
+		var a, b []string
+		for _, x := range bodiesOf(pre) {
+			a = append(a, x.family+"."+x.name)
+		}
+		for _, x := range bodiesOf(fresh) {
+			b = append(b, x.family+"."+x.name)
+		}
+		fail("routing-depends-on-message-state", fmt.Sprintf("populated bodies %v, with a fresh message %v", a, b))
+	}
+}
+
 func c05EncExec(c *core.Ctx, in c05Enc) {
 	spec := loadSpec()
 	fail := func(k, w string) {
@@ -363,6 +430,45 @@ func c05Run(c *core.Ctx) {
 			}
 		}
 	}
+	// pre-set security-header view: 8^3 value combinations of the three one-octet fields (MAC field follows the first)
+	// x inputs of both families (valid bodies of three types each, a wrong first octet, a GSM header read as GMM) x
+	// the three entry points
+	{
+		var inputs [][]byte
+		for _, fam := range []string{"gmm", "gsm"} {
+			for k, t := range types[fam] {
+				if k%((len(types[fam])+2)/3) == 0 {
+					if b := c05Body(spec, fam, t); b != nil {
+						inputs = append(inputs, b)
+						w := append([]byte{}, b...)
+						w[0] = 0x00
+						inputs = append(inputs, w)
+					}
+				}
+			}
+		}
+		inputs = append(inputs, []byte{0x2e, 0x05, 0x46, 0xd4}, []byte{0x7e, 0x00, 0x00}, []byte{0x55, 0x00, 0x46})
+		vals := []uint8{0, 0x7E, 0x2E, 1, 2, 3, 4, 0xFF}
+		for _, a := range vals {
+			u++
+			if !c.Mine(u) {
+				continue
+			}
+			if !c.Begin("preset", "decode", map[string]any{"first_header_field": a}) {
+				continue
+			}
+			for _, b := range vals {
+				for _, d := range vals {
+					for _, inp := range inputs {
+						for _, e := range []string{"plain", "gmm", "gsm"} {
+							n++
+							c05PresetExec(c, c05Preset{Entry: e, Hex: hexs(inp), Header: []uint8{a, b, a ^ 0x5A, d}})
+						}
+					}
+				}
+			}
+		}
+	}
 	c.Add("evaluations", n)
 	c.Add("states", n)
 	c.Add("transitions", n)
@@ -378,12 +484,13 @@ func c05Run(c *core.Ctx) {
 func init() {
 	core.RegisterKind("C05", "decode", c05DecExec)
 	core.RegisterKind("C05", "reuse", c05ReuseExec)
+	core.RegisterKind("C05", "preset", c05PresetExec)
 	core.RegisterKind("C05", "encode", c05EncExec)
 	core.RegisterProp(&core.PropSpec{
 		ID: "C05", Level: "model_checking", Run: c05Run,
 		Shards: func(string) int { return 16 },
 		Rule: func(string) string {
-			return "all 256 x 256 (first octet, message type) pairs at both header offsets ([o,00,t] and [o,00,00,t]), each followed by the minimal valid body of the message the pair names (also one octet short and with one trailing unknown octet) and by {nothing, one, sixteen} zero octets, through PlainNasDecode and the family decoder; all inputs of length 0..1, nil; reuse of one message for every ordered pair of assigned types of a family through PlainNasDecode and through the family decoder, with a valid and with a truncated (rejected) first input; encode for all 256 types x {5GMM, 5GSM} x {family encoder, PlainNasEncode} x {no body, another body, own body}. Oracle: the pinned message-type table (accept iff discriminator and type are assigned and the body is valid; exactly one family and exactly the named body populated; header view = input header = body header octets; errors otherwise)."
+			return "all 256 x 256 (first octet, message type) pairs at both header offsets ([o,00,t] and [o,00,00,t]), each followed by the minimal valid body of the message the pair names (also one octet short and with one trailing unknown octet) and by {nothing, one, sixteen} zero octets, through PlainNasDecode and the family decoder; all inputs of length 0..1, nil; reuse of one message for every ordered pair of assigned types of a family through PlainNasDecode and through the family decoder, with a valid and with a truncated (rejected) first input; decode into a message whose security-header view was set beforehand (8 x 8 x 8 values of the one-octet fields x 15 inputs x 3 entry points: verdict and populated bodies must equal those of a fresh message); encode for all 256 types x {5GMM, 5GSM} x {family encoder, PlainNasEncode} x {no body, another body, own body}. Oracle: the pinned message-type table (accept iff discriminator and type are assigned and the body is valid; exactly one family and exactly the named body populated; header view = input header = body header octets; errors otherwise)."
 		},
 		Assumptions: []string{
 			"'a message with no body' is read as 'neither GmmMessage nor GsmMessage'; a family header with an assigned type but a nil body of that type is not asserted (the statement is ambiguous there)",
